@@ -309,6 +309,15 @@ func (p *Program) pkgByName(name string) *types.Package {
 				if old, dup := p.byName[pk.Types.Name()]; !dup || len(pk.Types.Path()) < len(old.Path()) {
 					p.byName[pk.Types.Name()] = pk.Types
 				}
+				// "internal_osmpbf" names the package whose path ends in internal/osmpbf (for packages
+				// whose plain name is shadowed by a shorter path)
+				parts := strings.Split(pk.Types.Path(), "/")
+				if len(parts) >= 2 {
+					alias := parts[len(parts)-2] + "_" + parts[len(parts)-1]
+					if old, dup := p.byName[alias]; !dup || len(pk.Types.Path()) < len(old.Path()) {
+						p.byName[alias] = pk.Types
+					}
+				}
 			}
 			for _, im := range pk.Imports {
 				walk(im)
